@@ -323,6 +323,10 @@ impl Prop for C09 {
         None
     }
 
+    fn view(c: &Case) -> serde_json::Value {
+        serde_json::json!({"session": crate::lockstep::prog_view(&c.prog), "raw_lines": c.raw_lines.iter().map(|l| l.chars().take(160).collect::<String>()).collect::<Vec<_>>(), "break+CONT_at_boundaries": c.breaks})
+    }
+
     fn shrink(c: &Case) -> Vec<Case> {
         let mut out = vec![];
         for r in crate::engine::shrink_vec(&c.raw_lines) {
